@@ -433,6 +433,7 @@ pub fn def(tier: Tier) -> PropertyDef {
             sub("structured_dlt", tier.pick(40_000, 1_000_000), (prop::collection::vec(m(), 1..25), prop::bool::weighted(0.15), prop::bool::weighted(0.6)), structured).rates(&[("yielded_messages", 0.7), ("serial_framing", 0.05)]).boxed(),
             sub("mutated_corpus", tier.pick(15_000, 400_000), (any::<u16>(), prop::collection::vec(mutop, 0..12), prop::bool::weighted(0.5)), mutated).rates(&[("yielded_messages", 0.7), ("corpus_dlt", 0.2), ("corpus_asc", 0.1), ("corpus_logcat", 0.1)]).shrink_iters(500).boxed(),
             sub("plugin_protocols", tier.pick(20_000, 500_000), prop::collection::vec(crate::props::proto::pitem(), 1..40), plugin_protocols).rates(&[("yielded_messages", 0.9), ("someip_chunk_after_start", 0.2), ("transfer_data_after_start", 0.2)]).boxed(),
+            sub("binary_convert", tier.pick(320, 8_000), (0u8..3, prop::collection::vec(m(), 1..25), prop::collection::vec(crate::props::proto::pitem(), 1..30), any::<u16>()), binary_convert).rates(&[("exit_ok", 0.5), ("plugins_from_cli_paths", 0.3)]).shrink_iters(60).slow().boxed(),
             sub("messy_traces", tier.pick(20_000, 500_000), (prop::collection::vec(ev(3), 1..120), prop::bool::weighted(0.3)), messy_bytes).boxed(),
             crate::fuzzing::fuzz_sub("chain_fast", "fuzz_chain_fast", tier.pick(3_000, 30_000)),
             crate::fuzzing::fuzz_sub("chain_plugins", "fuzz_chain_plugins", tier.pick(1_000, 10_000)),
@@ -461,6 +462,97 @@ fn plugin_protocols(v: &Vec<crate::props::proto::PItem>, rep: &mut Rep) -> Resul
     rep.label_if(chunk_after_start, "someip_chunk_after_start");
     rep.label_if(data_after_start, "transfer_data_after_start");
     run_chain("dlt", &d, true, rep, false)
+}
+
+/// the adlt binary itself (argument handling, listing/printing with chrono formatting of hostile times, plugins built
+/// from command line paths, export, anonymiser) on hostile files: it ends, is not killed by a signal, does not panic.
+/// The exit status is not judged (an unusable input may be refused).
+fn binary_convert(v: &(u8, Vec<M>, Vec<crate::props::proto::PItem>, u16), rep: &mut Rep) -> Result<(), String> {
+    use crate::props::c14::Sandbox;
+    let (kind, ms, items, opts) = v;
+    let mut d = vec![];
+    match kind % 3 {
+        0 => {
+            for x in ms {
+                enc(x, false, &mut d);
+            }
+        }
+        1 => {
+            for (m, _) in crate::props::proto::build(items) {
+                m.to_write(&mut d).map_err(|e| e.to_string())?;
+            }
+        }
+        _ => {
+            for x in ms {
+                enc(x, true, &mut d);
+            }
+        }
+    }
+    let sb = Sandbox::new("c03bin");
+    let input = sb.path("in.dlt");
+    std::fs::write(&input, &d).map_err(|e| e.to_string())?;
+    let t = crate::chain::repo_tests();
+    let mut args: Vec<String> = vec!["convert".into()];
+    match opts % 4 {
+        1 => args.push("-a".into()),
+        2 => args.push("-x".into()),
+        3 => args.push("-s".into()),
+        _ => {}
+    }
+    if opts & 4 != 0 {
+        args.push("--sort".into());
+    }
+    if opts & 8 != 0 {
+        args.extend(["--nonverbose_path".to_string(), t.clone(), "--someip_path".to_string(), t.clone(), "--can_path".to_string(), t.clone(), "--muniic_path".to_string(), format!("{}/muniic", t), "--rewrite_path".to_string(), format!("{}/rewrite.cfg", t)]);
+        rep.label("plugins_from_cli_paths");
+    }
+    if opts & 16 != 0 {
+        args.extend(["--file_transfer=*".to_string(), "--file_transfer_path".to_string(), sb.path("ft").to_string_lossy().into_owned()]);
+    }
+    if opts & 32 != 0 {
+        args.extend(["-o".to_string(), sb.path("out.dlt").to_string_lossy().into_owned()]);
+    }
+    if opts & 64 != 0 {
+        args.push("--anon".into());
+    }
+    if opts & 128 != 0 {
+        args.push("--eac=ECU1,:APID:,::TC".into());
+    }
+    args.push(input.to_string_lossy().into_owned());
+    let errp = sb.path("stderr.txt");
+    let mut child = std::process::Command::new(crate::engine::adlt_bin())
+        .args(&args)
+        .env("TZ", "UTC")
+        .env("RAYON_NUM_THREADS", "1")
+        .env_remove("ADLT_VERIF_CHANNEL_CAP")
+        .stdin(std::process::Stdio::null())
+        .stdout(std::fs::File::create(sb.path("stdout.txt")).map_err(|e| e.to_string())?)
+        .stderr(std::fs::File::create(&errp).map_err(|e| e.to_string())?)
+        .spawn()
+        .map_err(|e| format!("cannot run {}: {}", crate::engine::adlt_bin().display(), e))?;
+    let end = std::time::Instant::now() + std::time::Duration::from_secs(120);
+    let status = loop {
+        match child.try_wait().map_err(|e| e.to_string())? {
+            Some(st) => break st,
+            None => {
+                if std::time::Instant::now() > end {
+                    let _ = child.kill();
+                    let _ = child.wait();
+                    return Err(format!("adlt {:?} did not end within 120 s on a {} byte file", &args[..args.len() - 1], d.len()));
+                }
+                std::thread::sleep(std::time::Duration::from_millis(2));
+            }
+        }
+    };
+    let stderr = String::from_utf8_lossy(&std::fs::read(&errp).unwrap_or_default()).into_owned();
+    {
+        use std::os::unix::process::ExitStatusExt;
+        ensure!(status.signal().is_none(), "adlt {:?} was killed by signal {:?}; stderr: {}", &args[..args.len() - 1], status.signal(), stderr.chars().take(400).collect::<String>());
+    }
+    ensure!(!stderr.contains("panicked"), "adlt {:?} panicked: {}", &args[..args.len() - 1], stderr.chars().take(600).collect::<String>());
+    rep.label_if(status.success(), "exit_ok");
+    rep.nontrivial = status.success() && !d.is_empty();
+    Ok(())
 }
 
 fn messy_bytes(v: &(Vec<Ev>, bool), rep: &mut Rep) -> Result<(), String> {
